@@ -154,7 +154,7 @@ def channels(ctx):
 def _unit_failure(rng, n_per_option):
     import c07_lib as L
     import c07_unit
-    rows, opts, _ = L.registry()
+    rows, opts, _ = L.registry(strict=False)
     for row, opt in zip(rows, opts):
         for _ in range(n_per_option):
             v = L.gen_value(row["kspec"], rng)
@@ -169,7 +169,7 @@ def search(ctx, disagreements):
     _quiet()
     import c07_lib as L
     import c07_e2e
-    rows, _, _ = L.registry()
+    rows, _, _ = L.registry(strict=False)
     # 1. the cases the correspondence disagreed on
     for d in disagreements:
         case = d.get("case")
@@ -205,7 +205,7 @@ def _replay_failure(f):
     import c07_lib as L
     import c07_e2e
     import c07_unit
-    rows, opts, _ = L.registry()
+    rows, opts, _ = L.registry(strict=False)
     if "case" in f and isinstance(f["case"], dict) and "manifest" in f["case"]:
         fails, _, stats = c07_e2e.run_case(f["case"], rows, want_model=False)
         return {"fails": bool(fails), "failures": fails[:5], "url": c07_e2e.case_url(f["case"]),
